@@ -150,7 +150,11 @@ let gen_history (seed : int) (nops : int) (ndocs : int) (profile : int) : string
       end
       else begin
         let d = rand ndocs and s = rand ndocs in
-        match rand 4 with
+        match rand 5 with
+        | 4 when d <> s ->
+            (* d = std::move(s): d receives s's content, s is left empty (two model steps; handles of both are stale) *)
+            custom := Some (fun w -> let (w1, _) = step w (ODocCopy (nat_of_int d, nat_of_int s)) in step w1 (ODocClear (nat_of_int s)));
+            (Printf.sprintf "dmove %d %d" d s, ODocSwap (nat_of_int d, nat_of_int s), None)
         | 0 -> (Printf.sprintf "dclear %d" d, ODocClear (nat_of_int d), None)
         | 1 -> if d = s then (Printf.sprintf "dshrink %d" d, ODocShrink (nat_of_int d), None)
                else (Printf.sprintf "dcopy %d %d" d s, ODocCopy (nat_of_int d, nat_of_int s), None)
@@ -237,10 +241,12 @@ let run_script (ndocs : int) (script : string) : string =
       | ["dswap"; d; s] -> (ODocSwap (nat d, nat s), None)
       | ["dshrink"; d] -> (ODocShrink (nat d), None)
       | ["deser"; h; t] -> (ODeser (hid h, bytes_of_hex t), None)
+      | ["dmove"; d; s2] -> (ODocSwap (nat d, nat s2), None)
       | ["chainget"; h; _; nh] -> (OGetElem (hid h, O), Some (int_of_string nh))
       | ["chainset"; h; _; x] -> (OSet (hid h, scalar_of_dump x), None)
       | _ -> failwith ("bad step: " ^ st) in
     let (w', res) = (match toks with
+      | ["dmove"; d; s2] -> let (w1, _) = step !w (ODocCopy (nat d, nat s2)) in step w1 (ODocClear (nat s2))
       | ["chainget"; h; p; _] -> chain_get !w (hid h) (path_of_string p)
       | ["chainset"; h; p; x] -> chain_set !w (hid h) (path_of_string p) (scalar_of_dump x)
       | _ -> step !w o) in
